@@ -114,6 +114,20 @@ func End() {
 	mu.Unlock()
 }
 
+// Abandon stops the episode without releasing the parked threads: used after a deadlock has
+// been established — releasing them would only move the deadlock into the runtime. They stay
+// parked (durably blocked) for the rest of the process.
+func Abandon() {
+	mu.Lock()
+	for _, t := range order {
+		t.parked = false
+	}
+	threads = map[int64]*Thread{}
+	order = nil
+	mu.Unlock()
+	active.Store(false)
+}
+
 // Register names the calling goroutine as a harness thread (before it does anything else).
 func Register(name string) *Thread {
 	g := goid()
